@@ -233,4 +233,14 @@ example : Useful 2 demo .fire ∧ measure 2 demo = 2 * 1 + 3 * 2 + 0 := by
   · decide
 example : deepest (init [(0, 10), (1, 11), (0, 12)] 0) [.start 0 3, .start 1 2, .poll 0, .poll 1] = 3 := by decide
 
+/-- **Prefetch is invisible to the cache.**  `Bundles::prefetch_sync` / `prefetch_async` only forward to the source's
+own hook: whatever history of requests, polls, source events and prefetches runs, the state (cached items, source
+position and counters, every consumer, parked wakers, wake log) is the one the history WITHOUT the prefetches
+produces — in particular no bundle is generated that no request needs -/
+theorem prefetch_is_invisible (s : St α) : prefetch s = s := rfl
+
+theorem prefetch_anywhere (s : St α) (ops₁ ops₂ : List Op) :
+    opRun (prefetch (opRun s ops₁)) ops₂ = opRun s (ops₁ ++ ops₂) := by
+  simp [prefetch, opRun, List.foldl_append]
+
 end FluentProofs.C17
